@@ -31,12 +31,27 @@ def current() -> dict:
     return {f: file_hash(REPO / f) for f in files}
 
 
+def head_hash(rel: str) -> str:
+    """AST hash of the file as committed at /repo's HEAD"""
+    import subprocess
+    try:
+        r = subprocess.run(["git", "-C", str(REPO), "show", "HEAD:" + rel], capture_output=True, text=True, timeout=20)
+        if r.returncode != 0:
+            return "absent"
+        return hashlib.sha256(ast.dump(ast.parse(r.stdout), include_attributes=False).encode()).hexdigest()[:16]
+    except Exception:
+        return "unparsable"
+
+
 def changed_files(prop: str) -> list:
-    if not BASELINE.exists():
-        return []
-    base = json.loads(BASELINE.read_text())
-    cur = current()
-    return [f for f in anchors().get(prop, []) if base.get(f) != cur.get(f)]
+    """anchored files whose working-tree AST differs from the recorded baseline or from /repo's HEAD"""
+    base = json.loads(BASELINE.read_text()) if BASELINE.exists() else {}
+    out = []
+    for f in anchors().get(prop, []):
+        h = file_hash(REPO / f)
+        if (f in base and base[f] != h) or head_hash(f) != h:
+            out.append(f)
+    return out
 
 
 if __name__ == "__main__":
